@@ -119,6 +119,32 @@ def oracle(ctx, lines, out):
     return v
 
 
+def extra(ctx):
+    """table-level necessary conditions on the rMQR rows that have no independent source: the character count
+    indicator of every mode must be able to express the largest count that fits the symbol at that level"""
+    viol = []
+    n = 0
+    for v in range(32):
+        for l in (0, 1):
+            c = refrmqr.cap(v, l)
+            capb = 8 * c['data']
+            for kind, per, mi in (('num', 10 / 3, 1), ('alnum', 5.5, 2), ('byte', 8, 3), ('kanji', 13, 4)):
+                n += 1
+                w = c['bitLength'][mi]
+                maxn = int((capb - 3 - w) / per)
+                if maxn > (1 << w) - 1:
+                    h, wd = refrmqr.SIZES[v]
+                    viol.append({'key': 'rm:count-indicator-width:R%dx%d' % (h, wd), 'lines': [], 'expect': '', 'got': '',
+                                 'detail': 'rMQR R%dx%d level %d: the %d-bit %s count indicator cannot express the %d characters the symbol holds (widths %s); '
+                                           'every other version\'s widths can' % (h, wd, l, w, kind, maxn, c['bitLength'][1:])})
+    seen, res = set(), []
+    for x in viol:
+        if x['key'] not in seen:
+            seen.add(x['key'])
+            res.append(x)
+    return {'violations': res, 'evaluations': n, 'notes': {'rmqr_count_width_rows_checked': n}}
+
+
 def nontrivial(line, out):
     return not line.rstrip().endswith(' 0')
 
